@@ -132,7 +132,7 @@ pub fn run(ctx: &mut Ctx) {
             if ks.is_empty() {
                 continue;
             }
-            let cases = ctx.cases((ks.len() * 40) as u32, 20);
+            let cases = ctx.cases((ks.len() * 100) as u32, 10);
             ctx.forall(&format!("ops/{}/{}", id.name(), st.name()), cases, strat(id, st, ks), check);
         }
     }
